@@ -117,6 +117,10 @@ func smProject(cs smCase) (root string, types map[string]string) {
 	case "reftor":
 		root = cs.V + ` // {type: "@t"}`
 		types["@t"] = cs.TV + " // {or: [" + smAnnotation(cs.Rules, true) + ", {type: \"boolean\"}]}"
+	case "ref2":
+		root = "{\n  \"k\": @t\n}"
+		types["@t"] = cs.V + ` // {type: "@u"}`
+		types["@u"] = withAnn(cs.TV, ann)
 	}
 	return
 }
@@ -240,15 +244,39 @@ func smClass(cs smCase, what string) string {
 	return fmt.Sprintf("check:%s:%s:%s:%s", what, cs.Skel, cs.Kind, strings.Join(names, "+"))
 }
 
+// smEval judges the project on fresh objects; a "ref2" project also with a @t object that was part of a project
+// with a rule-free @u before (SchemaApi.tla: the verdict is a function of the texts registered, not of the objects' past).
 func smEval(c *core.Ctx, cs smCase) []core.Finding {
+	fs := smEvalWith(c, cs, false)
+	if cs.Skel == "ref2" {
+		for _, f := range smEvalWith(nil, cs, true) {
+			f.Class += ":type-object-used-before"
+			f.What = "the @t object was registered and checked in a project with a rule-free @u first: " + f.What
+			fs = append(fs, f)
+		}
+	}
+	return fs
+}
+
+func smEvalWith(c *core.Ctx, cs smCase, usedBefore bool) []core.Finding {
 	return core.Guard("schema.Check", func() []core.Finding {
 		root, types := smProject(cs)
 		s := jschema.New("root", root)
+		objs := map[string]*jschema.JSchema{}
 		for n, t := range types {
-			if err := s.AddType(n, jschema.New(n, t)); err != nil {
+			objs[n] = jschema.New(n, t)
+		}
+		if usedBefore {
+			first := jschema.New("root", "{\n  \"k\": @t\n}")
+			_ = first.AddType("@t", objs["@t"])
+			_ = first.AddType("@u", jschema.New("@u", cs.TV))
+			_ = first.Check()
+		}
+		for n := range types {
+			if err := s.AddType(n, objs[n]); err != nil {
 				if c != nil {
 					c.Inconclusive("addtype-failed:" + fmt.Sprint(errCode(err)))
-					c.Sample(map[string]string{"addtype_failed": t, "err": firstLineOf(err)})
+					c.Sample(map[string]string{"addtype_failed": types[n], "err": firstLineOf(err)})
 				}
 				return nil
 			}
@@ -281,7 +309,7 @@ func runC01(c *core.Ctx) error {
 	files := map[string][]byte{}
 	if c.Thorough() {
 		cfg = "SchemaModel_thorough.cfg"
-		files[cfg] = []byte("SPECIFICATION Spec\nCONSTANTS\n  Skeletons = {\"root\",\"prop\",\"item\",\"or\",\"ref\",\"refor\",\"reftor\"}\n  Bounds = {2, 3, 4, 6, 9, 10, 14, 17}\n  Kinds = {\"num\",\"str\",\"arr\"}\nINVARIANTS TypeOK NoRulesAccepted Emit\nCHECK_DEADLOCK FALSE\n")
+		files[cfg] = []byte("SPECIFICATION Spec\nCONSTANTS\n  Skeletons = {\"root\",\"prop\",\"item\",\"or\",\"ref\",\"refor\",\"reftor\",\"ref2\"}\n  Bounds = {2, 3, 4, 6, 9, 10, 14, 17}\n  Kinds = {\"num\",\"str\",\"arr\"}\nINVARIANTS TypeOK NoRulesAccepted Emit\nCHECK_DEADLOCK FALSE\n")
 	}
 	var cases []smCase
 	res, err := tlc.Run(tlc.Opts{Module: "SchemaModel", Cfg: cfg, Workers: 16, Files: files, Timeout: 0, HeapGB: 12, OnLine: func(l string) {
